@@ -72,6 +72,9 @@ def body(chk):
         cases.insert(j * (step + 1), v)
     # the descriptor's COUNT of text records (the reader finds the one text record structurally, behind the pointer records): a file that
     # states 0 / 2 / 3 / nothing there may be refused as inconsistent -- but if it is opened, the text record's fields are the root attributes
+    for j, folders in enumerate((["previous"], ["orig", "BACKUP"], ["zzz_old", "_saved"], ["VOL"], ["previous"])):
+        cases.append(dict(level="1.5", seed=chk.seed + 840 + j, k=j, nfp=(3, 4, 5)[j % 3], files=("VOL",), images=(("HH", None, 1, 1),), fs=("local", "vtrace", "memory")[j % 3],
+                          clutter=folders, stamp=f"clutter-{'+'.join(folders)}"))
     fcount = ("VOL", "volume_descriptor", 0, "number_of_text_records_in_volume_directory")
     for j in range(3):   # FileFormat!Informational alternatives (2, 3, 0 text records declared; other record sequence numbers)
         for nfp in (3, 5, 12):
